@@ -86,6 +86,7 @@ func runC30(c *Ctx) {
 			fail, n := f.ErrEdgesOf(f.CallTo(own), true)
 			w = f.AfterEdgesMayReach(fail, nil, nil, act)
 			c.Check(n == 1 && w == nil, fn.String()+"/ownership-error⇏activate", "an ownership error or an owner mismatch never activates locally", c.P.Pos(fn.Decl.Pos()), f.describe(w))
+			c.onlyOnSuccess(f, f.CallTo(own), act, fn.String()+"/activate-only-after-ownership", "the grain is activated only over the edge on which the ownership check succeeded", c.P.Pos(fn.Decl.Pos()))
 			// activate failure with claim ⇒ RemoveGrain
 			afail, n2 := f.ErrEdgesOf(act, true)
 			rm := func(nd ast.Node) bool {
